@@ -396,6 +396,18 @@ theorem getScore_none {q : PQ} {item : Nat} (hp : PosOK q) (h : q.getScore item 
     obtain ⟨e, he, hei⟩ := (hp _ _).mp hpos
     rw [he] at h; simp at h
 
+theorem entries_keys_nodup {q : PQ} (hp : PosOK q) : q.entries.keys.Nodup := by
+  simp only [AMap.keys, PQ.entries, List.map_map, List.Nodup, List.pairwise_iff_getElem]
+  intro i j hi hj hij
+  simp only [List.length_map, Array.length_toList] at hi hj
+  simp only [List.getElem_map, Array.getElem_toList, Function.comp]
+  intro heq
+  have h1 : posGet q.pos q.heap[i].item = some i := (hp _ _).mpr ⟨q.heap[i], by simp, rfl⟩
+  have h2 : posGet q.pos q.heap[j].item = some j := (hp _ _).mpr ⟨q.heap[j], by simp, rfl⟩
+  rw [heq, h2] at h1
+  have : j = i := by simpa using h1
+  omega
+
 /-! ### every step preserves the invariant and is allowed by the abstract queue -/
 
 theorem step_refines {q : PQ} (hinv : Inv q) (op : Op) :
